@@ -151,19 +151,24 @@ def adjust (n : Int) (neg : Bool) (x : Int) : Int :=
   if x < 0 then (if x + n < 0 then (if neg then -1 else 0) else x + n)
   else if x ≥ n then (if neg then n - 1 else n) else x
 
+def sliceStart (n : Nat) (neg : Bool) : Option Int → Int
+  | none => if neg then (n : Int) - 1 else 0
+  | some x => adjust n neg x
+
+def sliceStop (n : Nat) (neg : Bool) : Option Int → Int
+  | none => if neg then -1 else (n : Int)
+  | some x => adjust n neg x
+
+/-- number of positions from `start` towards `stop` in steps of `c` (c ≠ 0) -/
+def sliceCount (start stop c : Int) : Nat :=
+  (if c < 0 then (if stop < start then (start - stop - 1) / (-c) + 1 else 0)
+   else (if start < stop then (stop - start - 1) / c + 1 else 0)).toNat
+
 /-- `slice(a, b, c).indices(n)` and the number of selected positions (c ≠ 0) -/
 def sliceIndices (n : Nat) (a b : Option Int) (c : Int) : Int × Int × Nat :=
-  let neg := decide (c < 0)
-  let start := match a with
-    | none => if neg then (n : Int) - 1 else 0
-    | some x => adjust n neg x
-  let stop := match b with
-    | none => if neg then -1 else (n : Int)
-    | some x => adjust n neg x
-  let cnt : Int :=
-    if neg then (if stop < start then (start - stop - 1) / (-c) + 1 else 0)
-    else (if start < stop then (stop - start - 1) / c + 1 else 0)
-  (start, stop, cnt.toNat)
+  let start := sliceStart n (decide (c < 0)) a
+  let stop := sliceStop n (decide (c < 0)) b
+  (start, stop, sliceCount start stop c)
 
 def sliceSamples (xs : List Int) (start c : Int) (cnt : Nat) : List Int :=
   (List.range cnt).map fun (j : Nat) => xs.getD (start + (j : Int) * c).toNat 0
